@@ -33,7 +33,8 @@ import (
 // offsets of Parse on the whole source; where both define done[i] they must agree, otherwise the
 // vector is returned as "unannotated" (no verdict).
 // Also compared here (plain comparison): the statements handed over in the complete callbacks are
-// deep-equal (positions and comments included) to Parse's statements.
+// deep-equal (positions and comments included) to Parse's statements.  Every source is fed twice:
+// with KeepComments(true) and with the parser's default (comments dropped).
 func init() { hlib.Register("inter", interEngine) }
 
 type lineReader struct {
@@ -97,6 +98,7 @@ type interTrace struct {
 	Dash        []int   `json:"dash"` // line i is a body line of a `<<-` here-document (narrows a named deviation)
 	Total       int     `json:"total"`
 	Stop        int     `json:"stop"`
+	NoComments  int     `json:"nocomments"` // 1: recorded with KeepComments(false), the parser's default
 	Ev          [][]int `json:"ev"`
 	Unannotated string  `json:"unannotated,omitempty"`
 	Item        int     `json:"item"`
@@ -202,13 +204,14 @@ func interEngine(raw json.RawMessage, _ []string) (any, error) {
 				errText   string
 				panicText string
 			}
+			keep := true
 			run := func(stop int) (r runRes) {
 				defer func() {
 					if e := recover(); e != nil {
 						r.panicText = panicText(e)
 					}
 				}()
-				p := syntax.NewParser(syntax.Variant(lang), syntax.KeepComments(true))
+				p := syntax.NewParser(syntax.Variant(lang), syntax.KeepComments(keep))
 				rd := &lineReader{lines: lines, ev: &r.ev}
 				for stmts, err := range p.InteractiveSeq(rd) {
 					inc := p.Incomplete()
@@ -232,6 +235,13 @@ func interEngine(raw json.RawMessage, _ []string) (any, error) {
 				tag := ""
 				if stop > 0 {
 					tag = fmt.Sprintf(" (consumer stops at callback %d)", stop)
+				}
+				full := full
+				if !keep {
+					tag += " (KeepComments off)"
+					if f2, err := parseWith(src, lang); err == nil {
+						full = f2
+					}
 				}
 				if r.panicText != "" {
 					where := "after the end of input"
@@ -272,6 +282,17 @@ func interEngine(raw json.RawMessage, _ []string) (any, error) {
 				tr.Unannotated = "panic"
 			}
 			traces = append(traces, tr)
+			// the default parser (comments dropped) must behave the same towards reader and consumer:
+			// same annotation, its own trace
+			keep = false
+			rn := run(0)
+			check(rn, 0)
+			if rn.panicText == "" {
+				tn := tr
+				tn.Ev, tn.NoComments = rn.ev, 1
+				traces = append(traces, tn)
+			}
+			keep = true
 			if v.Stops {
 				for k := 1; k <= r0.ncb; k++ {
 					rk := run(k)
